@@ -333,7 +333,11 @@ PLAIN = {"mov", "movb", "movw", "movl", "movq", "movabs", "movabsq", "lea", "add
          "cvtsi2ss", "cvtsi2sd", "cvtsi2ssl", "cvtsi2sdl", "cvtsi2ssq", "cvtsi2sdq", "cvttss2si", "cvttsd2si", "cvttss2sil", "cvttsd2sil",
          "cvttss2siq", "cvttsd2siq", "cvtss2sd", "cvtsd2ss", "cvtss2si", "cvtsd2si",
          "stosb", "stosq", "movsb", "movsq", "nop", "pause", "mfence", "lfence", "sfence", "ud2", "hlt", "cld", "std",
-         "cmove", "cmovne", "cmovl", "cmovg", "cmovle", "cmovge", "cmovb", "cmova", "cmovbe", "cmovae", "bswap", "cpuid", "syscall"} | X86_SET
+         "cmove", "cmovne", "cmovl", "cmovg", "cmovle", "cmovge", "cmovb", "cmova", "cmovbe", "cmovae", "bswap", "cpuid", "syscall", "popcnt", "lzcnt", "tzcnt", "bt", "bts", "btr", "btc", "bsf", "bsr", "rol", "ror", "rcl", "rcr", "shld", "shrd", "adc", "sbb", "xadd"} | X86_SET
+
+# mnemonic prefixes with an implicit effect on rsp or on control flow: never inferred to be effect-free
+STACK_FAMILY = ("push", "pop", "call", "lcall", "ret", "lret", "iret", "enter", "leave", "int", "into", "sysenter", "sysexit", "sysret",
+                "loop", "j", "ljmp", "xbegin", "xabort", "xend", "ud", "hlt", "rsm", "vmcall", "vmlaunch", "vmresume")
 
 RETCLS = ("int", "sse", "x87", "mem", "void", "unk")
 
@@ -474,6 +478,8 @@ def stack_function(fn, ldcallees=None, hooked=None):
                 if v % 8:
                     raise Unknown("%s: rsp adjusted by %d (not a multiple of 8)" % (fn.name, v))
                 rec.update(k="d", n=(v // 8) * (1 if op.startswith("add") else -1))
+            elif op in ("and", "andq") and m and int(m.group(1), 0) in (-16, 0xfffffffffffffff0):
+                rec.update(k="align16")                 # rsp8' = rsp8 if even else rsp8 - 1 (StackDisc.tla)
             elif op == "mov" and a0 == "%rbp":
                 rec.update(k="reset")
             elif in_alloca:
@@ -492,9 +498,16 @@ def stack_function(fn, ldcallees=None, hooked=None):
             pass
         elif op in PLAIN or (op[:-1] in PLAIN and op[-1] in SUFFIX) or re.match(r"^(mov[sz][bwl][wlq]?|set[a-z]{1,3}|cmov[a-z]{1,3})$", op):
             pass
-        elif op.startswith("f"):
+        elif op.startswith("f") or op == "emms" or any(re.search(r"%mm\d", a) for a in x.args):
             raise Unknown("%s: x87 instruction with unknown stack effect: %s" % (fn.name, x.raw))
+        elif op.startswith(STACK_FAMILY):
+            raise Unknown("%s: stack/control instruction with unmodelled effect: %s" % (fn.name, x.raw))
+        elif op.startswith(("xchg", "xadd")) and any(a.replace(" ", "") in ("%rsp", "%esp", "%sp", "%spl") for a in x.args):
+            raise Unknown("%s: unmodelled write to rsp: %s" % (fn.name, x.raw))
         else:
-            raise Unknown("%s: mnemonic with unknown stack effect: %s" % (fn.name, x.raw))
+            # Inferred: not an x87 instruction, not in the stack/control family, %rsp is not its destination
+            # (checked above) and it has no implicit rsp effect: effect 0 on (rsp8, x87).  A legitimate codegen
+            # change that merely uses another general-purpose / SSE instruction must not stop the check.
+            pass
         out.append(rec)
     return out
